@@ -1477,7 +1477,16 @@ def do_write_x(ctx, sc, pps, p):
                 w = CommonRoadFileWriter(sc, pps, file_format=FileFormat.XML if p["fmt"] == "xml" else FileFormat.PROTOBUF, **kw)
             out = []
             path = os.path.join(ctx.tmpdir(), f"x.{p['fmt']}")
-            for how in p["seq"]:
+
+            def make():
+                if p["direct"]:
+                    return (XMLFileWriter if p["fmt"] == "xml" else ProtobufFileWriter)(sc, pps, **kw)
+                return CommonRoadFileWriter(sc, pps, file_format=FileFormat.XML if p["fmt"] == "xml" else FileFormat.PROTOBUF, **kw)
+
+            def content(q):
+                data = open(q, "rb").read()
+                return re.sub(rb'date="[^"]*"', b'date=""', data, count=1) if p["fmt"] == "xml" else _erase_pb_date(data)
+            for n, how in enumerate(p["seq"]):
                 if how == "full":
                     w.write_to_file(path, OverwriteExistingFile.ALWAYS, check_validity=p["check"])
                 elif how == "skip":
@@ -1485,6 +1494,17 @@ def do_write_x(ctx, sc, pps, p):
                 else:
                     w.write_scenario_to_file(path, OverwriteExistingFile.ALWAYS)
                 out.append(os.path.getsize(path) > 0)
+                if how != "skip" and "reuse_diff" not in _LAST:
+                    # oracle: an export is a read-only operation on the writer's scenario too -- what a writer that has exported
+                    # before writes is what a new writer writes through the same entry point
+                    fresh = os.path.join(ctx.tmpdir(), f"fresh.{p['fmt']}")
+                    if how == "full":
+                        make().write_to_file(fresh, OverwriteExistingFile.ALWAYS)
+                    else:
+                        make().write_scenario_to_file(fresh, OverwriteExistingFile.ALWAYS)
+                    a, b = content(path), content(fresh)
+                    if a != b:
+                        _LAST["reuse_diff"] = [n, how, len(b), len(a)]
             return out
         finally:
             # the decimal precision is process-wide in the writers: put the default back for the oracle's own exports
@@ -2229,6 +2249,11 @@ def run_case(ctx, case, with_model=True, old_pb=False):
         steps.append((mop, mode, ans, abstract(sc, pps, I, cells, s1), amb, op))
         d = first_diff(s0, s1)
         sub = {"spec": spec, "ops": ops[:i + 1]}
+        if _LAST.get("reuse_diff"):
+            n_, how_, fresh_len, got_len = _LAST["reuse_diff"]
+            ctx.fail(f"C18/write_x/reused-writer-export-differs:{op[1]['fmt']}:{how_}",
+                     f"export number {n_ + 1} ({how_}) of ONE {op[1]['fmt']} writer object differs from the export of a new writer through the same "
+                     f"entry point ({fresh_len} -> {got_len} bytes, date erased): the earlier export changed what is exported", sub)
         if d:
             ctx.fail(f"C18/{_opkey(op)}/changed:{d}", f"operation {op[:3]} changed the observable attribute {d}"
                      + (f" (it raised {res[2]})" if res[0] == "err" else ""), sub)
